@@ -69,6 +69,9 @@ func raceSig(rep string) string {
 
 var concSalt int
 
+// isolatedBudget: child executions this worker may still spend on the one-process-per-execution fallback.
+var isolatedBudget = 2000
+
 // sameDoc: equal as JSON documents (map entries are emitted in Go map iteration order).
 func sameDoc(a, b string) bool {
 	if a == b {
@@ -203,10 +206,26 @@ func runConc(c *runner.Ctx) {
 		if race {
 			before = raceLogSize()
 		}
-		res := ex.Explore()
+		noBudget := 0
+		bud := &isolatedBudget
+		if race {
+			bud = &noBudget
+		}
+		res, isolated := ex.ExploreIsolating(c.RunCaseInChild, os.Getenv("VERIF_SCRATCH"), bud, func(prefix []int, stderr string, err error) {
+			if strings.Contains(stderr, "HARNESS-ERROR") {
+				fmt.Fprintln(os.Stderr, stderr)
+				os.Exit(3)
+			}
+			c.Violation("concurrent/isolated-execution-crashed", map[string]interface{}{"types": names, "schedule": prefix, "error": err.Error(), "stderr": stderr})
+		})
+		if isolated {
+			c.Count("harnesses_explored_with_one_process_per_execution", 1)
+		}
 		if res.Diverged != "" {
-			fmt.Fprintf(os.Stderr, "HARNESS-ERROR: %s (types %v)\n", res.Diverged, names)
-			os.Exit(3)
+			c.MarkIncomplete()
+			c.Note("replay divergence (process-global state survives between executions): harness not explored in this mode: " + res.Diverged)
+			c.Done(false, 0)
+			return
 		}
 		if race && raceLogSize() > before {
 			rp := raceReportFrom(before)
